@@ -288,6 +288,15 @@ class FormatMachine(MachineBase):
                                 {"diff": _text_diff(again.decode("utf-8", "replace"), text), "suffix": sfx})
         if verdict == VALID:
             self.count("C06", ["valid-written", self.FORMAT, self.abstract(s)])
+        if verdict == UNSPEC and not s.tainted and not self.keeps_roundtrip_oracle(why) and self.KIND == "ini":
+            # content outside every quantifier (e.g. an option name the file syntax cannot carry) that the library chose to
+            # write: if the independent reader cannot even parse the file, nothing is judged on it - it is only no longer trusted
+            try:
+                inimod.as_dict(text)
+            except inimod.IniError:
+                self.durable[path] = {"expected": None, "bytes": after, "clean": True, "kw": {}}
+                CTX.probe("dump.unspecified_content_written_unparsable")
+                return "ok-unspecified"
         self.check_canonical(text)
         self.count("C08", ["canon", self.FORMAT, self.abstract(s)])
         self.file_invariants(s, text, op)
